@@ -8,6 +8,7 @@
 #   https://www.gnu.org/licenses/gpl-3.0.en.html
 
 import collections
+import decimal
 import itertools as it
 import operator
 import re
@@ -1006,7 +1007,15 @@ def coerce_to_string(value):
         return ''
 
     elif not isinstance(value, str):
-        return str(coerce_to_number(value))
+        text = str(coerce_to_number(value))
+        if 'e' in text:
+            # python writes 0.00001 as 1e-05, excel as 0.00001 (and 1E-10)
+            mantissa, exponent = text.split('e')
+            if -10 < int(exponent) < 0:
+                text = format(decimal.Decimal(text), 'f')
+            else:
+                text = f'{mantissa}E{int(exponent):+03d}'
+        return text
 
     else:
         return value
@@ -1300,7 +1309,7 @@ def build_operator_operand_fixup(capture_error_state):
             elif isinstance(left_op, bool):
                 left_op = str(left_op).upper()
             elif isinstance(left_op, float) or isinstance(left_op, int):
-                left_op = str(coerce_to_number(left_op))
+                left_op = coerce_to_string(left_op)
             else:
                 left_op = str(left_op)
 
@@ -1309,7 +1318,7 @@ def build_operator_operand_fixup(capture_error_state):
             elif isinstance(right_op, bool):
                 right_op = str(right_op).upper()
             elif isinstance(right_op, float) or isinstance(right_op, int):
-                right_op = str(coerce_to_number(right_op))
+                right_op = coerce_to_string(right_op)
             else:
                 right_op = str(right_op)
 
